@@ -112,7 +112,7 @@ fn cmd_ledger(a: &Args) {
     let mut out = Out::new(&a.s("out", "ledger.ndjson"));
     let net = drive::net_of(&a.s("net", "custom02"));
     let fm: u128 = a.s("feemult", "1000").parse().unwrap();
-    drive::random_history(&mut out, &a.s("tag", "rand"), seed, net, a.u64("blocks", 10) as usize, fm);
+    drive::random_history(&mut out, &a.s("tag", "rand"), seed, net, a.u64("blocks", 10) as usize, fm, a.u64("jump", 0));
     let n = out.finish();
     println!("{}", json!({"records": n}));
 }
